@@ -2191,4 +2191,150 @@ Proof.
       (destruct (String.eqb "Inner" sn) eqn:E2; [cbn -[String.eqb] in H; destruct (String.eqb "Get" name); [discriminate|reflexivity]|]);
       reflexivity.
 Qed.
+
+(* ---- non-vacuity: accepted, in scope, evaluates to a value of the reported type ---- *)
+Definition a0 : ann := ann0.
+Definition id_ (n : string) : expr := EIdent a0 n false.
+
+(* I + 2 * F > 1.0 ? count(AI, {# > I}) : len(S) *)
+Definition ex_mixed : expr :=
+  ECond a0
+    (EBinary a0 BGt (EBinary a0 BAdd (id_ "I") (EBinary a0 BMul (EInt a0 2) (id_ "F"))) (EFloat a0 1.0))
+    (EBuiltin a0 BiCount [id_ "AI"; EClosure a0 (EBinary a0 BGt (EPointer a0) (id_ "I"))])
+    (EBuiltin a0 BiLen [id_ "S"]).
+
+(* Inc(1) + Twice(I) + In.Get() + In.X + AI[0] + MI["a"] + len(AI[1:2]) *)
+Definition ex_calls : expr :=
+  EBinary a0 BAdd (EFunction a0 "Inc" [EInt a0 1] false)
+  (EBinary a0 BAdd (EFunction a0 "Twice" [id_ "I"] false)
+  (EBinary a0 BAdd (EMethod a0 (id_ "In") "Get" [] false)
+  (EBinary a0 BAdd (EProperty a0 (id_ "In") "X" false)
+  (EBinary a0 BAdd (EIndex a0 (id_ "AI") (EInt a0 0))
+  (EBinary a0 BAdd (EIndex a0 (id_ "MI") (EStr a0 "a"))
+    (EBuiltin a0 BiLen [ESlice a0 (id_ "AI") (Some (EInt a0 1)) (Some (EInt a0 2))])))))).
+
+(* "a" in MI and S matches "^a" and I in 1..3 and not (S contains "z") and all(AI, {# % 2 == 1}) *)
+Definition ex_bools : expr :=
+  EBinary a0 BAndWord (EBinary a0 BIn (EStr a0 "a") (id_ "MI"))
+  (EBinary a0 BAndWord (EMatches a0 None (id_ "S") (EStr a0 "^a"))
+  (EBinary a0 BAndWord (EBinary a0 BIn (id_ "I") (EBinary a0 BRange (EInt a0 1) (EInt a0 3)))
+  (EBinary a0 BAndWord (EUnary a0 UNotWord (EBinary a0 BContains (id_ "S") (EStr a0 "z")))
+    (EBuiltin a0 BiAll [id_ "AI"; EClosure a0 (EBinary a0 BEq (EBinary a0 BMod (EPointer a0) (EInt a0 2)) (EInt a0 1))])))).
+
+(* {"k": [I, S], "n": len(filter(AA, {true}))} *)
+Definition ex_literals : expr :=
+  Ast.EMap a0 [EPair a0 (EStr a0 "k") (EArray a0 [id_ "I"; id_ "S"]);
+               EPair a0 (EStr a0 "n") (EBuiltin a0 BiLen [EBuiltin a0 BiFilter [id_ "AA"; EClosure a0 (EBool a0 true)]])].
+
+Definition accepted_in_scope (e : expr) (t : ty) (v : value) : Prop :=
+  in_scope c e = true /\ fst (fst (check c e)) = t /\ snd (check c e) = None /\
+  exists s, eval fe cfg env [] (snd (fst (check c e))) rs0 = Done v s.
+
+Lemma ex_mixed_ok : accepted_in_scope ex_mixed tint (vint 2).
+Proof. unfold accepted_in_scope. vm_compute. repeat split. eexists. reflexivity. Qed.
+
+Lemma ex_calls_ok : accepted_in_scope ex_calls tint (vint 25).
+Proof. unfold accepted_in_scope. vm_compute. repeat split. eexists. reflexivity. Qed.
+
+Lemma ex_bools_ok : accepted_in_scope ex_bools TBool (VBool true).
+Proof. unfold accepted_in_scope. vm_compute. repeat split. eexists. reflexivity. Qed.
+
+Lemma ex_literals_ok :
+  accepted_in_scope ex_literals (TMap TString TIface)
+    (VMap TString TIface [(VStr "k", VArr TIface [vint 3; VStr "abc"]); (VStr "n", vint 2)]).
+Proof. unfold accepted_in_scope. vm_compute. repeat split. eexists. reflexivity. Qed.
+
+(* the theorem applies to the examples: all its hypotheses hold of this universe *)
+Lemma sound_partial_applies e t e' :
+  check c e = (t, e', None) -> in_scope c e = true -> forall s, res_ok te ftab t (eval fe cfg env [] e' s).
+Proof. exact (sound_partial c perm_id perm_ok te_wf ftab fe cfg env (TStruct "Env") "Env" eq_refl (env_is_ok None) fe_ok e t e'). Qed.
+
+(* AsInt64 on ex_mixed: the run yields an int64 *)
+Lemma ex_cast_ok :
+  in_scope (cc (Some (RKNum KInt64))) ex_mixed = true /\ snd (check (cc (Some (RKNum KInt64))) ex_mixed) = None /\
+  cast_scope (RKNum KInt64) (fst (fst (check (cc (Some (RKNum KInt64))) ex_mixed))) = true /\
+  exists s, run_ref fe cfg env CastInt64 (snd (fst (check (cc (Some (RKNum KInt64))) ex_mixed))) = Done (VNum (NInt KInt64 2)) s.
+Proof. vm_compute. repeat split. eexists. reflexivity. Qed.
+
+(* ---- the unrestricted statement is false of the model: one witness per recorded finding ---- *)
+Definition unsound_at (e : expr) : Prop :=
+  exists t e', check c e = (t, e', None) /\ ~ res_ok te ftab t (eval fe cfg env [] e' rs0).
+
+Ltac refute :=
+  split; [vm_compute; reflexivity|];
+  eexists; eexists; split; [vm_compute; reflexivity|];
+  vm_compute; first [ intros H; discriminate H
+                    | intros [_ [H|H]]; discriminate H ].
+
+(* FS(1): integer literal for a string input - C03-literal-retype *)
+Definition w_literal_retype : expr := EFunction a0 "FS" [EInt a0 1] false.
+Lemma refuted_literal_retype : in_scope c w_literal_retype = false /\ unsound_at w_literal_retype.
+Proof. refute. Qed.
+
+(* M == 1 with type MyInt int - C03-named-int *)
+Definition w_named_int : expr := EBinary a0 BEq (id_ "M") (EInt a0 1).
+Lemma refuted_named_int : in_scope c w_named_int = false /\ unsound_at w_named_int.
+Proof. refute. Qed.
+
+(* AI?.x - C03-nilsafe-on-slice *)
+Definition w_nilsafe_on_slice : expr := EProperty a0 (id_ "AI") "x" true.
+Lemma refuted_nilsafe_on_slice : in_scope c w_nilsafe_on_slice = false /\ unsound_at w_nilsafe_on_slice.
+Proof. refute. Qed.
+
+(* (B ? 1 : nil) + 1 - C03-cond-branch-type *)
+Definition w_cond_branch : expr := EBinary a0 BAdd (ECond a0 (id_ "B") (EInt a0 1) (ENil a0)) (EInt a0 1).
+Lemma refuted_cond_branch : in_scope c w_cond_branch = false /\ unsound_at w_cond_branch.
+Proof. refute. Qed.
+
+(* AI["a"] - C03-index-key-type *)
+Definition w_index_key : expr := EIndex a0 (id_ "AI") (EStr a0 "a").
+Lemma refuted_index_key : in_scope c w_index_key = false /\ unsound_at w_index_key.
+Proof. refute. Qed.
+
+(* MI[1:2] - C03-slice-of-map *)
+Definition w_slice_of_map : expr := ESlice a0 (id_ "MI") (Some (EInt a0 1)) (Some (EInt a0 2)).
+Lemma refuted_slice_of_map : in_scope c w_slice_of_map = false /\ unsound_at w_slice_of_map.
+Proof. refute. Qed.
+
+(* filter(AI, {# > 0}) is reported []int, the run yields []interface{} - C03-builtin-elem-type *)
+Definition w_builtin_elem : expr :=
+  EBuiltin a0 BiFilter [id_ "AI"; EClosure a0 (EBinary a0 BGt (EPointer a0) (EInt a0 0))].
+Lemma refuted_builtin_elem : in_scope c w_builtin_elem = false /\ unsound_at w_builtin_elem.
+Proof. refute. Qed.
+
+(* PI + 1 with PI *int - C03-pointer-operand *)
+Definition w_pointer_operand : expr := EBinary a0 BAdd (id_ "PI") (EInt a0 1).
+Lemma refuted_pointer_operand : in_scope c w_pointer_operand = false /\ unsound_at w_pointer_operand.
+Proof. refute. Qed.
+
+(* {(1): 2} - C03-map-key-type *)
+Definition w_map_key : expr := Ast.EMap a0 [EPair a0 (EInt a0 1) (EInt a0 2)].
+Lemma refuted_map_key : in_scope c w_map_key = false /\ unsound_at w_map_key.
+Proof. refute. Qed.
+
+(* Inc(nil) - C03-nil-argument *)
+Definition w_nil_argument : expr := EFunction a0 "Inc" [ENil a0] false.
+Lemma refuted_nil_argument : in_scope c w_nil_argument = false /\ unsound_at w_nil_argument.
+Proof. refute. Qed.
+
+(* P.X with P a nil *Inner: fetch reports "cannot fetch X from *Inner", a message of the type
+   class, for a nil pointer (not among the recorded findings: see the report) *)
+Definition w_nil_struct_pointer : expr := EProperty a0 (id_ "P") "X" false.
+Lemma refuted_nil_struct_pointer : in_scope c w_nil_struct_pointer = false /\ unsound_at w_nil_struct_pointer.
+Proof. refute. Qed.
 End SWit.
+
+(* the statement without the carve-out *)
+Definition sound_full_statement : Prop :=
+  forall (c : cconfig) (perm : TypesTable.table -> TypesTable.table),
+  (forall l, Permutation (perm l) l) -> wf_tenv (cc_te c) = true ->
+  forall ftab fe cfg env T sn, c_mapenv cfg = false -> env_ok c perm ftab T sn env -> fenv_ok (cc_te c) ftab fe ->
+  forall e t e', check c e = (t, e', None) ->
+  forall s, res_ok (cc_te c) ftab t (eval fe cfg env [] e' s).
+
+Theorem sound_full_refuted : ~ sound_full_statement.
+Proof.
+  intros F. destruct SWit.refuted_named_int as [_ (t & e' & Hc & Hn)]. apply Hn.
+  exact (F SWit.c perm_id SWit.perm_ok SWit.te_wf SWit.ftab SWit.fe SWit.cfg SWit.env (TStruct "Env") "Env" eq_refl
+           (SWit.env_is_ok None) SWit.fe_ok _ _ _ Hc rs0).
+Qed.
